@@ -29,6 +29,18 @@ pub struct TempFileGuard {
     path: Option<PathBuf>,
 }
 
+/// Path of the working file a delta update of `dest` is rebuilt in before it is
+/// renamed over `dest`: the full file name with `.sy.tmp` appended (`with_extension`
+/// would map `a.bin` and `a.dat` to the same `a.sy.tmp`).
+pub fn working_file_path(dest: &Path) -> PathBuf {
+    let mut name = dest
+        .file_name()
+        .map(|n| n.to_os_string())
+        .unwrap_or_default();
+    name.push(".sy.tmp");
+    dest.with_file_name(name)
+}
+
 impl TempFileGuard {
     /// Create a new guard for a temporary file path.
     ///
